@@ -484,6 +484,8 @@ def views(ctx, m):
             idx_ok = all(c[2][0][0] == "index" and c[2][0][2] == ("var", "i") for c in calls) and bool(calls)
             ctx.check(src_ok(nm, e) and idx_ok, "views", "Market::level_2_data|" + nm, ctx.loc(f),
                       "Market::level_2_data[i].%s <- %s" % (nm, render(e)), "Market::level_2_data[i].%s is fed from %s" % (nm, render(e)))
+    elif r is not None and r[0] == "call" and r[4] == "level_2_data" and "OrderBook" in r[1] and r[2] and r[2][0][0] == "index" and r[2][0][2] == ("var", "i"):
+        ctx.ok("views", ctx.loc(f), "Market::level_2_data[i] <- order_books[i].level_2_data() (the book's own view, checked above)")
     else:
         ctx.bad("views", "Market::level_2_data|shape", ctx.loc(f), "Market::level_2_data is not from_fn over a Level2Data literal per index")
 
